@@ -21,7 +21,7 @@ type HistoryCase struct {
 const maxPool = 12
 
 func genHistory(maxOps int) *rapid.Generator[HistoryCase] {
-	gg := genGenomeSpec(GenomeCfg{MinGenes: 1, MaxHidden: 3, MaxGenes: 10, ModestWeight: true, TraitBase1: false})
+	gg := genGenomeSpec(GenomeCfg{MinGenes: 1, MaxHidden: 3, MaxGenes: 10, ModestWeight: true, TraitBase1: false, LargeRoom: true})
 	og := genOpts(OptsCfg{})
 	kinds := append([]string{}, mutatorKinds...)
 	kinds = append(kinds, opAddNode, opAddLink, opAddLink, opToggle, opReEnable) // bias towards structure and flags
